@@ -870,3 +870,17 @@ func (t *Thread) SetSignaled(b bool) { t.signaled = b }
 func (t *Thread) Granted() bool      { return t.granted }
 func (t *Thread) SetGranted(b bool)  { t.granted = b }
 func (t *Thread) Since() uint64      { return t.since }
+
+// Touch is a scheduling point followed by a write (or read) on a harness
+// object: it makes the order of harness-level events part of the state key.
+func Touch(o *Obj, write bool, val uint64) {
+	s := S
+	if s.aborting {
+		return
+	}
+	s.Point(KLog, o, nil)
+	if s.aborting {
+		return
+	}
+	s.commit(s.cur, KLog, o, write, val)
+}
